@@ -10,7 +10,7 @@
 //! individually verified.
 
 use std::cmp::Reverse;
-use std::collections::{BTreeMap, BinaryHeap, HashSet};
+use std::collections::{BTreeMap, BTreeSet, BinaryHeap, HashSet};
 use std::net::SocketAddr;
 use std::sync::Arc;
 use std::time::{Duration, Instant};
@@ -241,6 +241,8 @@ pub struct Repair<N: Network> {
     /// Index of the last slice of each block, as proved by a `LastSliceRoot` response.
     last_slices: BTreeMap<BlockId, SliceIndex>,
     outstanding_requests: BTreeMap<Hash, RepairRequestType>,
+    /// Requests already retried because of a NACK since they were last sent on a timeout.
+    nack_retried: BTreeSet<Hash>,
     /// Expiry times of outstanding requests, earliest first (min-heap via [`Reverse`]).
     request_timeouts: BinaryHeap<Reverse<(Instant, Hash)>>,
     network: N,
@@ -270,6 +272,7 @@ where
             slice_roots: BTreeMap::new(),
             last_slices: BTreeMap::new(),
             outstanding_requests: BTreeMap::new(),
+            nack_retried: BTreeSet::new(),
             request_timeouts: BinaryHeap::new(),
             network,
             sampler,
@@ -303,6 +306,7 @@ where
                     let Some(Reverse((_, hash))) = self.request_timeouts.pop() else {
                         continue;
                     };
+                    self.nack_retried.remove(&hash);
                     if let Some(request) = self.outstanding_requests.remove(&hash) {
                         debug!("retrying timed-out repair request {request:?}");
                         if let Err(err) = self.send_request(request).await {
@@ -351,6 +355,12 @@ where
 
         match response {
             RepairResponse::Nack(req_type) => {
+                // retry at once, but only once per timeout period: every further NACK for the request
+                // (the other peers asked in the same round, duplicates) must not multiply requests
+                if !self.nack_retried.insert(request_hash) {
+                    debug!("ignoring further NACK for repair request {req_type:?}");
+                    return;
+                }
                 debug!("received NACK for repair request {req_type:?}, retrying immediately");
                 if let Err(err) = self.send_request(req_type).await {
                     warn!("retrying NACKed repair request failed: {err}");
